@@ -7,23 +7,7 @@ import Girc.Model.Event
 namespace Girc.Model
 open Girc
 
-structure User where
-  nick : Bytes
-  ident : Bytes := []
-  host : Bytes := []
-  chans : List Bytes := []          -- ChannelList: folded names, sorted
-  perms : AMap Perms := []          -- Perms.channels: keyed by folded channel name
-  name : Bytes := []                -- Extras.Name
-  account : Bytes := []
-  away : Bytes := []
-  deriving DecidableEq, Repr
-
-structure Channel where
-  name : Bytes
-  topic : Bytes := []
-  users : List Bytes := []          -- UserList: folded nicks, sorted
-  modes : CModes
-  deriving DecidableEq, Repr
+-- `User` and `Channel` are declared (under these same names) in Girc/Base/GoSem.lean, shared with the generated code.
 
 /-- `strictTransport` (times abstracted: `expired`/`recentlyFailed` are observations supplied by
     the environment when they are needed). -/
